@@ -119,16 +119,46 @@ impl<'a> MessageParser<'a> {
         let field_content = self.extract_field(&full_tag, false)?;
 
         // Use parse_with_variant for enum fields
-        T::parse_with_variant(&field_content, Some(&variant), Some(base_tag)).map_err(|e| {
-            ParseError::InvalidFieldFormat(Box::new(InvalidFieldFormatError {
-                field_tag: full_tag,
+        let parsed = T::parse_with_variant(&field_content, Some(&variant), Some(base_tag))
+            .map_err(|e| {
+                ParseError::InvalidFieldFormat(Box::new(InvalidFieldFormatError {
+                    field_tag: full_tag.clone(),
+                    component_name: "field".to_string(),
+                    value: field_content.clone(),
+                    format_spec: "field format".to_string(),
+                    position: Some(self.position),
+                    inner_error: e.to_string(),
+                }))
+            })?;
+        self.check_variant_matches_tag(&parsed, &full_tag, &field_content)?;
+        Ok(parsed)
+    }
+
+    /// The option letter written in the message decides the variant: a value whose own
+    /// serialisation carries a different tag (content-based fallback picked another option)
+    /// is a format error of the field, not a silently re-tagged field.
+    fn check_variant_matches_tag<T: SwiftField>(
+        &self,
+        parsed: &T,
+        full_tag: &str,
+        content: &str,
+    ) -> Result<(), ParseError> {
+        if parsed
+            .to_swift_string()
+            .starts_with(&format!(":{}:", full_tag))
+        {
+            return Ok(());
+        }
+        Err(ParseError::InvalidFieldFormat(Box::new(
+            InvalidFieldFormatError {
+                field_tag: full_tag.to_string(),
                 component_name: "field".to_string(),
-                value: field_content,
+                value: content.to_string(),
                 format_spec: "field format".to_string(),
                 position: Some(self.position),
-                inner_error: e.to_string(),
-            }))
-        })
+                inner_error: format!("content is not valid for option {}", full_tag),
+            },
+        )))
     }
 
     /// Parse an optional field with variant detection
@@ -143,14 +173,15 @@ impl<'a> MessageParser<'a> {
                     let parsed = T::parse_with_variant(&content, Some(&variant), Some(base_tag))
                         .map_err(|e| {
                             ParseError::InvalidFieldFormat(Box::new(InvalidFieldFormatError {
-                                field_tag: full_tag,
+                                field_tag: full_tag.clone(),
                                 component_name: "field".to_string(),
-                                value: content,
+                                value: content.clone(),
                                 format_spec: "field format".to_string(),
                                 position: Some(self.position),
                                 inner_error: e.to_string(),
                             }))
                         })?;
+                    self.check_variant_matches_tag(&parsed, &full_tag, &content)?;
                     Ok(Some(parsed))
                 } else {
                     Ok(None)
